@@ -293,6 +293,9 @@ func Main(id string, run func(c *Ctx) error) {
 		}
 	}
 	c.Rand = rand.New(rand.NewSource(c.Seed))
+	if os.Getenv("VERIF_SUPERVISED") == "" && c.Replay == "" && os.Getenv("VERIF_NO_SUPERVISOR") == "" {
+		supervise(id, c.Tier, c.Seed, c.Root) // runs the check as a child; does not return
+	}
 	var err error
 	c.known, err = loadFindings(c.Root, id)
 	if err != nil {
